@@ -9,7 +9,7 @@ import numpy as np
 from .. import coqrun
 from ..core import Corr
 from ..coqrun import cstr, clist, cbool, cq
-from ..translate import ptable, srd144, periodgroup, radii, codata
+from ..translate import ptable, srd144, periodgroup, radii, codata, radiiglue
 from . import c01
 
 PID = "C17"
@@ -21,8 +21,11 @@ EXTRA_TARGETS = ["Model/Radii.vo", "Model/RadiiUnits.vo"]
 TRUSTED = [
     "translators harness/translate/radii.py (both radii data modules and the `aliases` literal of CovalentRadii.__init__ -> Gen/Radii.v, "
     "values as verbatim decimal strings), ptable.py, srd144.py, periodgroup.py",
-    "hand-written model coq/Model/Radii.v of CovalentRadii/VanderWaalsRadii.__init__ and .get and of Datum.to_units, on top of the C01 "
-    "periodic-table model; tied by differential execution (this file)",
+    "translator harness/translate/radiiglue.py (the bodies of CovalentRadii.get, VanderWaalsRadii.get and Datum.to_units -> Gen/RadiiGlue.v) and the "
+    "combinators of coq/Model/RadiiGlue.v + Model/PeriodicTableGlue.v as the meaning of the Python constructs used; the hand-written [get] of "
+    "coq/Model/Radii.v is PROVED equal to both generated get methods (C17_generated_get_is_model)",
+    "hand-written model coq/Model/Radii.v of CovalentRadii/VanderWaalsRadii.__init__ (table construction) on top of the C01 "
+    "periodic-table model; tied by differential execution of the constructed dictionaries entry by entry (this file)",
     "default unit (Bohr): the factor is DERIVED in the model: 1 / bohr2angstroms, bohr2angstroms = the alias expression of context.py "
     "(Gen/Aliases.v) over the shipped CODATA table of the default context (Gen/Codata2014.v / 2018; default year translated from context.py); "
     "trusted there: that pint defines bohr as <'bohr radius' value> metre and angstrom as 1e-10 metre (read in ureg.py, not translated)",
@@ -47,6 +50,7 @@ def translate(ctx):
     srd144.generate(ctx.repo)
     periodgroup.generate(ctx.repo)
     radii.generate(ctx.repo)
+    radiiglue.generate(ctx.repo)  # Gen/RadiiGlue.v: both get methods and Datum.to_units as translated from the source
     codata.generate(ctx.repo)     # Gen/Codata2014.v, Codata2018.v, Aliases.v (shared with C02/C03): the Bohr radius and the alias expression
 
 
@@ -370,6 +374,11 @@ def correspond(ctx):
             nident += 1
             if stream == "history-members":
                 combos = [(None, False, "bohr"), (fallback, False, "angstrom"), (None, True, "bohr")]
+            if nident % 2:
+                # every other identifier: the option combinations in a random order (Datum before number, fallback before
+                # no-fallback, one unit before another): an answer must not depend on the options of an earlier call
+                ctx.rng.shuffle(combos)
+                corr.hit("options_in_random_order")
             plan.append((stream, x, cov, combos))
     # every fallback value (truthy, falsy, both zeros, int/float, negative, huge) for every element, tabulated or not,
     # both radius sets, return_tuple on and off
@@ -377,6 +386,8 @@ def correspond(ctx):
         for x in ([e, z, n.lower()] if ctx.thorough else [e] + ([z] if z % 4 == 0 else [])):
             for cov in (True, False):
                 plan.append(("fallbacks", x, cov, [(fb, rt, "bohr") for fb in fallbacks() for rt in (False, True)]))
+    import collections
+    recent = {True: collections.deque(maxlen=40), False: collections.deque(maxlen=40)}   # the calls made just before, per radius set
     for stream, x, cov, combos in plan:
         for missing, rt, units in combos:
             out = impl_get(cov, x, missing, rt, units)
@@ -391,10 +402,37 @@ def correspond(ctx):
                 corr.hit("fallback")
             else:
                 corr.hit("raised_" + out[1])
+            exp = rs.expect(cov, x)     # which branch of the model's get answers this call
+            if exp[0] == "entry":
+                corr.hit("model_ident_exact_key" if isinstance(x, str) and x == exp[1] else "model_ident_via_to_E")
+                if "_" in exp[1]:
+                    corr.hit("model_special_label")
+                elif exp[4] is None:
+                    corr.hit("model_generic_alias_entry")
+                corr.hit("model_return_datum" if rt else "model_return_number")
+            elif exp[0] == "nodata":
+                corr.hit("model_nodata_fallback" if (missing is not None and not rt) else "model_nodata_raise")
+            else:
+                corr.hit("model_not_an_element")
             bad = oracle(rs, cov, x, missing, rt, units, out)
             case = _case(cov, x, missing, rt, units, c01.collide_history(x))
             if bad:
+                if len(corr.failures) < 200:
+                    # does a fresh object give the same wrong answer?  if not, the failure depends on earlier calls: keep them in the case
+                    try:
+                        obj = _objs()[0 if cov else 1]
+                        try:
+                            out2 = ("Ok", type(obj)(obj.name).get(x, return_tuple=rt, units=units, missing=missing))
+                        except Exception as e:  # noqa: BLE001
+                            out2 = ("Err", type(e).__name__)
+                        stateless = bool(oracle(rs, cov, x, missing, rt, units, out2))
+                    except Exception:  # noqa: BLE001
+                        stateless = True
+                    if not stateless:
+                        case["history"] = list(case.get("history") or []) + list(recent[cov])
                 corr.failures.append({"stream": "oracle", "case": case, "what": bad, "observed": repr(out)})
+            mv, mk = enc_missing(missing)
+            recent[cov].append({"atom": x, "missing": mv, "missing_kind": mk, "return_tuple": rt, "units": units})
             if isinstance(x, str) and not x.isascii():
                 continue
             want = rexp_term(out, missing)
@@ -624,7 +662,10 @@ def _run_case(rs, case):
     cov = case["table"] == "covalent"
     missing = dec_missing(case)
     for h in case.get("history") or []:  # history-makers: their own answers are not judged
-        impl_get(cov, h, None, False, "bohr")
+        if isinstance(h, dict):              # a complete earlier call
+            impl_get(cov, h["atom"], dec_missing(h), h["return_tuple"], h["units"])
+        else:
+            impl_get(cov, h, None, False, "bohr")
     out = impl_get(cov, case["atom"], missing, case["return_tuple"], case["units"])
     return {"oracle": oracle(rs, cov, case["atom"], missing, case["return_tuple"], case["units"], out), "implementation": repr(out)}
 
@@ -676,11 +717,23 @@ LEVEL_TEXT = (
     "C17_value_is_tabulated_times_factor, C17_native_unit_exact, C17_linear_in_factor, C17_all_entries_native_unit, C17_datum_carries_source_value "
     "(exact rational arithmetic, the factor being the one the implementation reports); C17_missing_contract (non-atom -> NotAnElementError; atom "
     "without entry -> exactly the caller's fallback, parametrically in its type, or DataUnavailableError; atom with entry never the fallback) and "
-    "C17_fails_closed. Tied to the implementation by exhaustive differential execution of get() (all elements x alias forms x cases x 5 units x "
+    "C17_fails_closed. Wave 3: C17_generated_get_is_model, C17_generated_to_units (both get methods and Datum.to_units TRANSLATED from the source on "
+    "every run equal the hand model for all tables, identifiers, fallbacks, return forms, factors; default unit bohr), C17_public_missing_contract "
+    "(the contract on the generated entry points), C17_tabulated_value_by_any_name (any name of the element -> the source row's Datum and factor x "
+    "value, both sets), C17_untabulated_element_contract (every periodic-table row without entry x alias forms x cases), C17_non_atom_rejected, "
+    "C17_special_labels_are_variants, C17_special_label_wrong_case_rejected. Tied to the implementation by exhaustive differential execution of get() (all elements x alias forms x cases x 5 units x "
     "missing x return_tuple x both sets, all labels, invalid names), of the constructed dictionaries entry by entry, and of Datum.to_units; the "
     "property oracle (source tables read independently, largest variant recomputed, bit-exact IEEE product) runs on the implementation's answers.")
 LEVEL_NOTE = (
-    "Trusted: Coq kernel + vm_compute; the fail-closed translators; the hand-written model of __init__/get (differentially tested); the C01 model it "
-    "builds on. The unit factor is an input (pint/CODATA conversion is C03's subject): theorems are relative to it and the oracle sanity-checks the "
+    "Clause map (full version at the top of coq/Props/C17.v): (a) any name -> tabulated value of the element: C17_radius_by_element, "
+    "C17_alias_invariant_radius, C17_tabulated_value_by_any_name; (b) special labels / largest variant: C17_special_labels_own_entry, "
+    "C17_bare_element_is_largest_variant, C17_special_labels_are_variants, C17_special_label_wrong_case_rejected; (c) units: "
+    "C17_default_is_tabulated_over_bohr2angstroms, C17_bohr2angstroms_from_codata, C17_native_unit_exact, C17_linear_in_factor, "
+    "C17_datum_carries_source_value; (d) missing contract: C17_missing_contract, C17_untabulated_element_contract, C17_non_atom_rejected, "
+    "C17_public_missing_contract, C17_fails_closed; (e) public entry points = model: C17_generated_get_is_model, C17_generated_to_units. ONLY "
+    "correspondence/oracle: array payloads and float rounding of Datum.to_units, absence of state between calls (history streams), pydantic "
+    "construction, unit factors other than Angstrom->Bohr. "
+    "Trusted: Coq kernel + vm_compute; the fail-closed translators; the combinator reading of the Python constructs of get/to_units "
+    "(Model/RadiiGlue.v); the hand-written model of __init__ (differentially tested entry by entry); the C01 model it builds on. The unit factor is an input (pint/CODATA conversion is C03's subject): theorems are relative to it and the oracle sanity-checks the "
     "five factors used. Floating point: the model is exact; implementation floats are compared within 2^-51 relative and bit-exactly in the Python "
     "oracle. Datum validation (pydantic) and array payloads are covered by the oracle only. No axioms (all theorems closed under the global context).")
